@@ -116,7 +116,13 @@ class _STIXBase(collections.abc.Mapping):
         # property its value could be anything.
         if 'granular_markings' in self._properties:
             for m in self.get('granular_markings', []):
-                validate(self, m.get('selectors'))
+                try:
+                    validate(self, m.get('selectors'))
+                except RecursionError:
+                    raise InvalidValueError(
+                        self.__class__, 'granular_markings',
+                        "the object is nested too deeply to check selectors",
+                    )
 
     def __init__(self, allow_custom=False, interoperability=False, **kwargs):
         cls = self.__class__
